@@ -870,6 +870,8 @@ class PyCdlib:
         name = splitpath.pop()
 
         parent = self._find_iso_record(b'/' + b'/'.join(splitpath))
+        if not parent.is_dir():
+            raise pycdlibexception.PyCdlibInvalidInput('The parent of an entry must be a directory')
 
         return (name.decode('utf-8').encode('utf-8'), parent)
 
@@ -893,6 +895,8 @@ class PyCdlib:
         if len(name) > 64:
             raise pycdlibexception.PyCdlibInvalidInput('Joliet names can be a maximum of 64 characters')
         parent = self._find_joliet_record(b'/' + b'/'.join(splitpath))
+        if not parent.is_dir():
+            raise pycdlibexception.PyCdlibInvalidInput('The parent of an entry must be a directory')
 
         return (name.decode('utf-8').encode('utf-16_be'), parent)
 
